@@ -530,10 +530,20 @@ impl Formatter for CustomizedFormatter {
     {
         match self.options.bytes_syntax {
             BytesSyntax::R6RS | BytesSyntax::R7RS => {
-                write_scheme_vector(self, writer, VectorType::Byte, bytes, |writer, &octet| {
+                // The byte vector prefix and its closing parenthesis do not
+                // depend on the syntax chosen for generic vectors: there is no
+                // bracket notation for byte vectors.
+                writer.write_all(match self.options.bytes_syntax {
+                    BytesSyntax::R6RS => b"#vu8(",
+                    _ => b"#u8(",
+                })?;
+                for (i, octet) in bytes.iter().enumerate() {
+                    self.begin_seq_element(writer, i == 0)?;
                     let mut buffer = itoa::Buffer::new();
-                    writer.write_all(buffer.format(octet).as_bytes())
-                })
+                    writer.write_all(buffer.format(*octet).as_bytes())?;
+                    self.end_seq_element(writer)?;
+                }
+                writer.write_all(b")")
             }
             BytesSyntax::Elisp => {
                 static OCTAL_CHARS: &[u8] = b"012345678";
